@@ -5,7 +5,8 @@ characterised exactly by `Spec.Allowed.acceptedAsContextual` / `acceptedByWrite`
 import OpenFGAVerif.Proofs.ValidationCond
 
 namespace OpenFGAVerif.Proofs.Validation
-open OpenFGAVerif.Model.TupleStr OpenFGAVerif.Spec.TupleStr OpenFGAVerif.Proofs.TupleStr
+open OpenFGAVerif.Model.TupleStr (Bytes cColon cHash cAt cStar cSpace wildcard runes isControl indexByte lastIndexByte splitObject buildObject getType splitObjectRelation getRelation toObjectRelationString getObjectRelationAsString toUserParts isValidObject isValidRelation isValidUserID isValidUserset isValidUser isObjectRelation isTypedWildcard isWildcard typedPublicWildcard)
+open OpenFGAVerif.Spec.TupleStr OpenFGAVerif.Proofs.TupleStr
 open OpenFGAVerif.Model.Validation OpenFGAVerif.Spec.Allowed
 open OpenFGAVerif.Model.Condition (Ctx Std)
 
@@ -133,7 +134,8 @@ theorem validateCondition_ok_iff (std : Std) (m : Model) (rd : RelDef) (t : Tupl
 end OpenFGAVerif.Proofs.Validation
 
 namespace OpenFGAVerif.Proofs.Validation
-open OpenFGAVerif.Model.TupleStr OpenFGAVerif.Spec.TupleStr OpenFGAVerif.Proofs.TupleStr
+open OpenFGAVerif.Model.TupleStr (Bytes cColon cHash cAt cStar cSpace wildcard runes isControl indexByte lastIndexByte splitObject buildObject getType splitObjectRelation getRelation toObjectRelationString getObjectRelationAsString toUserParts isValidObject isValidRelation isValidUserID isValidUserset isValidUser isObjectRelation isTypedWildcard isWildcard typedPublicWildcard)
+open OpenFGAVerif.Spec.TupleStr OpenFGAVerif.Proofs.TupleStr
 open OpenFGAVerif.Model.Validation OpenFGAVerif.Spec.Allowed
 open OpenFGAVerif.Model.Condition (Ctx Std)
 
@@ -296,7 +298,8 @@ theorem contextualCheck_ok_iff (std : Std) (m : Model) (t : Tuple) (hwf : Restrs
 end OpenFGAVerif.Proofs.Validation
 
 namespace OpenFGAVerif.Proofs.Validation
-open OpenFGAVerif.Model.TupleStr OpenFGAVerif.Spec.TupleStr OpenFGAVerif.Proofs.TupleStr
+open OpenFGAVerif.Model.TupleStr (Bytes cColon cHash cAt cStar cSpace wildcard runes isControl indexByte lastIndexByte splitObject buildObject getType splitObjectRelation getRelation toObjectRelationString getObjectRelationAsString toUserParts isValidObject isValidRelation isValidUserID isValidUserset isValidUser isObjectRelation isTypedWildcard isWildcard typedPublicWildcard)
+open OpenFGAVerif.Spec.TupleStr OpenFGAVerif.Proofs.TupleStr
 open OpenFGAVerif.Model.Validation OpenFGAVerif.Spec.Allowed
 open OpenFGAVerif.Model.Condition (Ctx Std)
 
